@@ -1,6 +1,7 @@
 import JoblibProofs.Lemmas.ParallelProto
 import JoblibProofs.Lemmas.AutoBatch
 import JoblibProofs.Lemmas.ParallelSeq
+import JoblibProofs.Lemmas.EvalExpr
 /-!
 # C09 — Parallel consumes its input lazily, boundedly and from one thread at a time
 
@@ -19,6 +20,15 @@ every state of a call (invariants `Inv`, `InvB`). The configuration-only bound o
 adversarial schedules (finding F18, `lookahead_unbounded_counterexample`): what is proved is
 `lookahead_bound_partial`, configuration-only when no completion is delivered before `_start` returns, and growing
 by `n_jobs · bmax` per task completed during `_start` otherwise.
+
+"Arithmetic-only evaluation of pre_dispatch expressions" (`_utils.eval_expr`) and the way `pre_dispatch` fixes the
+amount of the bound: model `JoblibModel.EvalExpr` (section "`_utils.eval_expr` …" below). Quantifier reached there:
+EVERY AST `ast.parse(…, mode="eval").body` can be and EVERY interpretation of the eight operator functions
+(`eval_arithmetic_only`, `eval_rejects_cleanly_partial`); every AST of the integer fragment (`eval_sound`); every
+`pre_dispatch` value (text, int, float, bool, other) and every `n_jobs` for the resolution, which is a function
+(`resolve_amount_fixed`), with `lookahead_bound_user` re-stating the look-ahead bound in terms of the USER's
+`pre_dispatch` and `n_jobs`. Floats are binary64 values computed exactly except the general case of `float ** float`
+(abstention, see the model's header); the parser is a sub-grammar (abstention outside it), tied by correspondence only.
 -/
 namespace C09
 open JoblibModel.ParallelProto
@@ -248,5 +258,338 @@ theorem sequential_no_pull_after_failure :
     exact ⟨seqNext_dead fuel' _ rfl, rfl⟩
 
 end Sequential
+
+
+/-! ### `_utils.eval_expr` and the `pre_dispatch` resolution -/
+
+section EvalExprSection
+open JoblibModel
+open JoblibModel.EvalExpr hiding Exc Res
+
+/-- ARITHMETIC ONLY. For EVERY interpretation `ops` of `node.value` and of the eight operator functions, and every
+AST: if `eval_expr` returns a value then the AST is built only from `Constant` nodes, `BinOp` nodes with one of the 7
+operators `+ - * / // % **` and `UnaryOp` nodes with unary minus — no `Name`, `Call`, `Attribute`, … node and no other
+operator occurs anywhere in it; and a node of any other class is never handed to anything: `eval_` raises `TypeError`
+on it at once. -/
+theorem eval_arithmetic_only {α : Type} (ops : Ops α) (e : Ast) (v : α) (h : evalExprWith ops e = .ok v) :
+    isArith e = true ∧ ∀ k, evalRaw ops (.other k) = .raise .TypeError :=
+  ⟨evalRaw_ok_isArith ops e v (wrap_ok.1 h), fun _ => rfl⟩
+
+/-
+Full statement (FALSE, see `eval_rejects_cleanly_counterexample`):
+  eval_rejects_cleanly: every AST outside the arithmetic fragment yields `ValueError`.
+What is proved (`eval_rejects_cleanly_partial`): never a value; `ValueError`, unless a call of an operator function made
+earlier in evaluation order (left operand before right operand, operator lookup before both) did not return a value —
+then the outcome is that call's outcome (after the `TypeError → ValueError` re-labelling). With the model's Python
+operator functions the classes that can get out are `ZeroDivisionError` and `OverflowError` (`eval_exception_classes`);
+when every operator call succeeds the outcome is exactly `ValueError` (`eval_rejects_cleanly_when_ops_succeed`).
+-/
+
+/-- REJECTION (partial: see the comment above). For every interpretation of the operator functions and every AST
+outside the arithmetic fragment: `eval_expr` never returns a value; it raises `ValueError`, or its outcome is the
+(re-labelled) outcome `wrap r` of one call `r` of an operator function that did not return a value. -/
+theorem eval_rejects_cleanly_partial {α : Type} (ops : Ops α) (e : Ast) (h : isArith e = false) :
+    (∀ v, evalExprWith ops e ≠ .ok v) ∧
+    (evalExprWith ops e = .raise .ValueError ∨
+      ∃ r, OpCall ops r ∧ (∀ v, r ≠ .ok v) ∧ evalExprWith ops e = wrap r) := by
+  have hno : ∀ v, evalRaw ops e ≠ .ok v := fun v hv => by
+    have := evalRaw_ok_isArith ops e v hv
+    rw [h] at this
+    cases this
+  refine ⟨fun v hv => hno v (wrap_ok.1 hv), ?_⟩
+  rcases evalRaw_origin ops e with ⟨v, hv⟩ | h1 | h1 | h1
+  · exact absurd hv (hno v)
+  · left; simp [evalExprWith, h1, wrap]
+  · left; simp [evalExprWith, h1, wrap]
+  · right; exact ⟨_, h1, hno, rfl⟩
+
+/-- When every call of an operator function returns a value, an AST outside the arithmetic fragment yields exactly
+`ValueError`. -/
+theorem eval_rejects_cleanly_when_ops_succeed {α : Type} (ops : Ops α)
+    (happ : ∀ f a b, ∃ v, ops.apply f a b = .ok v) (hneg : ∀ a, ∃ v, ops.neg a = .ok v)
+    (e : Ast) (h : isArith e = false) : evalExprWith ops e = .raise .ValueError := by
+  rcases (eval_rejects_cleanly_partial ops e h).2 with h1 | ⟨r, hc, hno, _⟩
+  · exact h1
+  · rcases hc with ⟨f, a, b, hr⟩ | ⟨a, hr⟩
+    · obtain ⟨v, hv⟩ := happ f a b
+      exact absurd (hr.symm.trans hv) (hno v)
+    · obtain ⟨v, hv⟩ := hneg a
+      exact absurd (hr.symm.trans hv) (hno v)
+
+/-- The unconditional rejection statement is FALSE of the model and of the code alike: in `(1/0) + foo` the left
+operand is evaluated before the `Name` node is reached, and `ZeroDivisionError` is not among the exceptions
+`eval_expr` re-labels (`eval_expr("(1/0)+foo")` raises `ZeroDivisionError`). Harmless for the security clause: nothing
+of the `Name` node is evaluated. -/
+theorem eval_rejects_cleanly_counterexample :
+    isArith (.binOp .add (.binOp .div (.const (.int 1)) (.const (.int 0))) (.other .name)) = false ∧
+    evalExpr (.binOp .add (.binOp .div (.const (.int 1)) (.const (.int 0))) (.other .name)) =
+      .raise .ZeroDivisionError := by
+  decide
+
+/-- With the model's Python operator functions: whatever the AST, the only exception classes that leave `eval_expr`
+are `ValueError`, `ZeroDivisionError` and `OverflowError`; in particular an AST outside the arithmetic fragment yields
+one of these three or the model abstains (a float power it does not track was evaluated on the way) — never a value. -/
+theorem eval_exception_classes (e : Ast) :
+    (∀ x, evalExpr e = .raise x → x = .ValueError ∨ x = .ZeroDivisionError ∨ x = .OverflowError) ∧
+    (isArith e = false → evalExpr e = .raise .ValueError ∨ evalExpr e = .raise .ZeroDivisionError ∨
+      evalExpr e = .raise .OverflowError ∨ evalExpr e = .untracked) := by
+  refine ⟨fun x hx => evalExpr_raise_class hx, fun h => ?_⟩
+  cases hr : evalExpr e with
+  | ok v => exact absurd hr ((eval_rejects_cleanly_partial pyOps e h).1 v)
+  | untracked => exact Or.inr (Or.inr (Or.inr rfl))
+  | raise x =>
+    rcases evalExpr_raise_class hr with hx | hx | hx <;> subst hx
+    · exact Or.inl rfl
+    · exact Or.inr (Or.inl rfl)
+    · exact Or.inr (Or.inr (Or.inl rfl))
+
+/-- SOUNDNESS ON THE INTEGER FRAGMENT. `intDenote` is the mathematical value of an expression built from integer
+constants, `+ - *`, `//` and `%` (Lean's floor division `Int.fdiv` / `Int.fmod`, divisor ≠ 0), `**` with a non-negative
+exponent (`a ^ b`) and unary minus. Whenever it is defined, `eval_expr` — which computes `//`, `%` the way CPython's
+`l_divmod` does (truncate, then fix the signs) and `**` by square-and-multiply — returns exactly that integer; the
+only alternative is that the model abstains, which it does only when some power exceeds `intPowBitBound` bits
+(`powWithinBound e = false`). -/
+theorem eval_sound (e : Ast) (n : Int) (h : intDenote e = some n) :
+    (powWithinBound e = true → evalExpr e = .ok (.int n)) ∧
+    (evalExpr e = .ok (.int n) ∨ evalExpr e = .untracked) := by
+  obtain ⟨h1, h2⟩ := evalRaw_int_sound e n h
+  refine ⟨fun hp => ?_, ?_⟩
+  · simp [evalExpr, evalExprWith, h1 hp, wrap]
+  · rcases h2 with h2 | h2
+    · left; simp [evalExpr, evalExprWith, h2, wrap]
+    · right; simp [evalExpr, evalExprWith, h2, wrap]
+
+/-- The denotation's `//` and `%` are Python's: `a = b·(a // b) + a % b` with the remainder in `[0, b)` for a positive
+and in `(b, 0]` for a negative divisor (floor semantics, e.g. `7 // -2 = -4`, `7 % -2 = -1`). -/
+theorem floor_semantics (a b : Int) (hb : b ≠ 0) :
+    a = b * Int.fdiv a b + Int.fmod a b ∧ (0 < b → 0 ≤ Int.fmod a b ∧ Int.fmod a b < b) ∧
+    (b < 0 → b < Int.fmod a b ∧ Int.fmod a b ≤ 0) ∧
+    intDenote (.binOp .floorDiv (.const (.int 7)) (.unaryOp .usub (.const (.int 2)))) = some (-4) ∧
+    intDenote (.binOp .mod (.const (.int 7)) (.unaryOp .usub (.const (.int 2)))) = some (-1) := by
+  obtain ⟨h1, h2, h3⟩ := fdiv_fmod_floor a b hb
+  exact ⟨h1, h2, h3, by decide, by decide⟩
+
+/-- THE AMOUNT IS FIXED BY `pre_dispatch` AND `n_jobs`. The resolution is a function of the user's `pre_dispatch` and
+the effective `n_jobs` alone: two M1 configurations set up from the same two arguments have the same `n_jobs`, the
+same mode (`'all'` or not) and the same `islice` amount; `'all'` is recognised by string equality only; and an amount
+handed to `islice` is at most `sys.maxsize`. -/
+theorem resolve_amount_fixed (pd : PreDispatch) (n_jobs : Nat) :
+    (∀ c c' : Cfg, UserCfg c pd n_jobs → UserCfg c' pd n_jobs →
+      c.nj = c'.nj ∧ (c.pdMode = 1 ↔ c'.pdMode = 1) ∧ (c.pdMode ≠ 1 → c.pd = c'.pd)) ∧
+    (resolvePreDispatch pd n_jobs = .all ↔ pd = .str allText) ∧
+    (∀ a, resolvePreDispatch pd n_jobs = .amount a → a ≤ maxsize) := by
+  refine ⟨?_, ?_, ?_⟩
+  · intro c c' ⟨h1, h2⟩ ⟨h1', h2'⟩
+    refine ⟨h1.trans h1'.symm, ?_⟩
+    cases hr : resolvePreDispatch pd n_jobs with
+    | all => simp only [hr] at h2 h2'; exact ⟨⟨fun _ => h2', fun _ => h2⟩, fun hm => absurd h2 hm⟩
+    | amount a =>
+      simp only [hr] at h2 h2'
+      exact ⟨⟨fun hm => absurd hm h2.1, fun hm => absurd hm h2'.1⟩, fun _ => h2.2.trans h2'.2.symm⟩
+    | raise x => simp only [hr] at h2
+    | untracked => simp only [hr] at h2
+  · have hv : ∀ v, resolveVal v ≠ .all := fun v => by
+      unfold resolveVal resolveInt isliceStop
+      split
+      · split <;> simp
+      · simp
+      · simp
+    have ha : ∀ e, resolveAst e ≠ .all := fun e => by
+      unfold resolveAst
+      split
+      · exact hv _
+      · simp
+      · simp
+    constructor
+    · intro h
+      cases pd with
+      | str s =>
+        by_cases hs : s = allText
+        · rw [hs]
+        · simp only [resolvePreDispatch, hs, if_false] at h
+          split at h
+          · exact absurd h (ha _)
+          · simp at h
+          · simp at h
+      | int n => exact absurd h (hv _)
+      | flt f => exact absurd h (hv _)
+      | bool b => exact absurd h (hv _)
+      | bytes => simp [resolvePreDispatch] at h
+      | other => simp [resolvePreDispatch] at h
+    · intro h
+      subst h
+      simp [resolvePreDispatch]
+  · have hv : ∀ v a, resolveVal v = .amount a → a ≤ maxsize := fun v a h => by
+      unfold resolveVal resolveInt at h
+      split at h
+      · exact (isliceStop_amount h).2
+      · simp at h
+      · simp at h
+    have ha : ∀ e a, resolveAst e = .amount a → a ≤ maxsize := fun e a h => by
+      unfold resolveAst at h
+      split at h
+      · exact hv _ a h
+      · simp at h
+      · simp at h
+    intro a h
+    cases pd with
+    | str s =>
+      unfold resolvePreDispatch at h
+      simp only at h
+      split at h
+      · simp at h
+      · split at h
+        · exact ha _ a h
+        · simp at h
+        · simp at h
+    | int n => exact hv _ a h
+    | flt f => exact hv _ a h
+    | bool b => exact hv _ a h
+    | bytes => simp [resolvePreDispatch] at h
+    | other => simp [resolvePreDispatch] at h
+
+/-- LOOK-AHEAD BOUND IN TERMS OF THE USER'S ARGUMENTS (corollary of `lookahead_bound_partial`). Let the user pass
+`pre_dispatch` (any text / number) and let the backend give `n_jobs ≥ 2`; if the resolution yields the amount `a`
+(`resolvePreDispatch pre_dispatch n_jobs = .amount a`) then in every non-aborting state reachable in the retrieval
+phase: `items taken − tasks completed ≤ (a + k · n_jobs · bmax + n_jobs) · bmax`, `k` = tasks completed before `_start`
+returned, and at most `a + k · n_jobs · bmax` batches are in flight — a function of the user's `pre_dispatch`, `n_jobs`
+and the batch size only (`k = 0`: no completion during `_start`). -/
+theorem lookahead_bound_user {c : Cfg} {pd : PreDispatch} {n_jobs a : Nat} (hu : UserCfg c pd n_jobs)
+    (ha : resolvePreDispatch pd n_jobs = .amount a) (hnj : 2 ≤ n_jobs) (hbs : ∀ b ∈ c.bs, 1 ≤ b)
+    {fuel base : Nat} {spec : CallSpec} {s₀ s₁ s : St} (hi : Idle s₀) (hh : s₀.hung = false)
+    (hstart : callStart c fuel base spec s₀ = (s₁, none)) (hna1 : s₁.aborting = false)
+    (hr : RetrievalReach c s₀.trk.length s₁ s) (hna : s.aborting = false) :
+    s.srcPos - s.nCompleted ≤ (a + s₁.nCompleted * (n_jobs * bmax c) + n_jobs) * bmax c ∧
+    ownParked s₀.trk.length s ≤ a + s₁.nCompleted * (n_jobs * bmax c) := by
+  obtain ⟨h1, h2⟩ := hu
+  rw [ha] at h2
+  have := lookahead_bound_partial (c := c) (by omega) hbs h2.1 hi hh hstart hna1 hr hna
+  rw [h1, h2.2] at this
+  exact this
+
+/-- THE COMMON TEXTS, FOR EVERY `n_jobs`. `'n_jobs'`, `'2*n_jobs'` and the default `'2 * n_jobs'` resolve to `n_jobs`,
+resp. `2·n_jobs`, for every `n_jobs ≥ 1` (below `sys.maxsize`): `str(n_jobs)` is substituted into the text, the text is
+lexed and parsed back to the same integer, and evaluated. (Other texts: `resolve_text_witnesses`, and the
+correspondence streams of the check.) -/
+theorem resolve_common_texts (n_jobs : Nat) (h1 : 1 ≤ n_jobs) :
+    (n_jobs ≤ maxsize → resolvePreDispatch (.str "n_jobs".toList) n_jobs = .amount n_jobs) ∧
+    (2 * n_jobs ≤ maxsize → resolvePreDispatch (.str "2*n_jobs".toList) n_jobs = .amount (2 * n_jobs)) ∧
+    (2 * n_jobs ≤ maxsize → resolvePreDispatch (.str "2 * n_jobs".toList) n_jobs = .amount (2 * n_jobs)) :=
+  JoblibModel.EvalExpr.resolve_common_texts n_jobs h1
+
+/-- LOOK-AHEAD BOUND FOR THE DEFAULT `pre_dispatch='2 * n_jobs'`, every `n_jobs ≥ 2`: in every non-aborting state of
+the retrieval phase `items taken − tasks completed ≤ (3 · n_jobs + k · n_jobs · bmax) · bmax` (`k` = tasks completed
+before `_start` returned; `3 · n_jobs · bmax` when no completion is delivered during `_start`), and at most
+`2 · n_jobs + k · n_jobs · bmax` batches are in flight. -/
+theorem lookahead_bound_default {c : Cfg} {n_jobs : Nat} (hu : UserCfg c (.str "2 * n_jobs".toList) n_jobs)
+    (hnj : 2 ≤ n_jobs) (hm : 2 * n_jobs ≤ maxsize) (hbs : ∀ b ∈ c.bs, 1 ≤ b)
+    {fuel base : Nat} {spec : CallSpec} {s₀ s₁ s : St} (hi : Idle s₀) (hh : s₀.hung = false)
+    (hstart : callStart c fuel base spec s₀ = (s₁, none)) (hna1 : s₁.aborting = false)
+    (hr : RetrievalReach c s₀.trk.length s₁ s) (hna : s.aborting = false) :
+    s.srcPos - s.nCompleted ≤ (3 * n_jobs + s₁.nCompleted * (n_jobs * bmax c)) * bmax c ∧
+    ownParked s₀.trk.length s ≤ 2 * n_jobs + s₁.nCompleted * (n_jobs * bmax c) := by
+  have ha := (resolve_common_texts n_jobs (by omega)).2.2 hm
+  obtain ⟨b1, b2⟩ := lookahead_bound_user hu ha hnj hbs hi hh hstart hna1 hr hna
+  refine ⟨?_, b2⟩
+  have e : 2 * n_jobs + s₁.nCompleted * (n_jobs * bmax c) + n_jobs =
+      3 * n_jobs + s₁.nCompleted * (n_jobs * bmax c) := by omega
+  rw [e] at b1
+  exact b1
+
+/-- `'all'`, user form: the configuration set up for `pre_dispatch='all'` is in mode 1, so `all_is_eager` applies. -/
+theorem all_is_eager_user {c : Cfg} {n_jobs : Nat} (hu : UserCfg c (.str allText) n_jobs) : c.pdMode = 1 := by
+  obtain ⟨_, h2⟩ := hu
+  simpa [resolvePreDispatch] using h2
+
+/-- ZERO AND NEGATIVE AMOUNTS, numbers. An int `n`: negative or above `sys.maxsize` ⇒ `islice` raises `ValueError`
+(nothing is dispatched, the call fails); otherwise the amount is `n` — in particular `0` for `0` (finding F11: nothing
+is dispatched, the call returns `[]`). A finite float is truncated TOWARD ZERO by `int()`: every float in `(-1, 1)`
+gives the amount 0 (so `-0.5` is accepted and dispatches nothing), a float `≤ -1` raises `ValueError`; `inf` raises
+`OverflowError`, `nan` raises `ValueError`, `True`/`False` are 1/0, objects without `__int__` raise `TypeError`. -/
+theorem resolve_numbers (n_jobs : Int) :
+    (∀ n : Int, n < 0 → resolvePreDispatch (.int n) n_jobs = .raise .ValueError) ∧
+    (∀ n : Int, (maxsize : Int) < n → resolvePreDispatch (.int n) n_jobs = .raise .ValueError) ∧
+    (∀ n : Int, 0 ≤ n → n ≤ (maxsize : Int) → resolvePreDispatch (.int n) n_jobs = .amount n.toNat) ∧
+    (∀ m e : Int, resolvePreDispatch (.flt (.fin m e)) n_jobs = isliceStop (Int.tdiv (finRat m e).1 (finRat m e).2)) ∧
+    (∀ m e : Int, resolvePreDispatch (.flt (.fin m e)) n_jobs = .amount 0 ↔ (finRat m e).1.natAbs < (finRat m e).2) ∧
+    resolvePreDispatch (.flt .inf) n_jobs = .raise .OverflowError ∧
+    resolvePreDispatch (.flt .nan) n_jobs = .raise .ValueError ∧
+    resolvePreDispatch (.bool true) n_jobs = .amount 1 ∧ resolvePreDispatch (.bool false) n_jobs = .amount 0 ∧
+    resolvePreDispatch .other n_jobs = .raise .TypeError ∧ resolvePreDispatch .bytes n_jobs = .raise .TypeError := by
+  refine ⟨fun n h => isliceStop_neg h, fun n h => isliceStop_big h, fun n h0 h1 => isliceStop_ok h0 h1,
+    fun m e => rfl, fun m e => ?_, rfl, rfl, rfl, rfl, rfl, rfl⟩
+  show isliceStop (Int.tdiv (finRat m e).1 (finRat m e).2) = .amount 0 ↔ _
+  rw [← tdiv_eq_zero_iff _ (finRat_den_pos m e)]
+  constructor
+  · intro h
+    have := (isliceStop_amount h).1
+    simpa using this
+  · intro h
+    rw [h]
+    decide
+
+/-- ZERO AND NEGATIVE AMOUNTS, texts (witnesses, evaluated by the kernel on the model — the same definitions the
+driver runs). Amount 0 (F11): `'0*n_jobs'`, `'0.4*n_jobs'` with `n_jobs = 2` (0.8), `'-0.5'`, `'n_jobs//n_jobs - 1'`;
+`ValueError` from `islice`: `'-1'`, `'-n_jobs'`, `'n_jobs - 2*n_jobs'`, `'-1.5'`, `'2**63'` (but `'2**63-1'` is
+accepted), `'1 + 2*3**(4) / (6 + -7)'` (the docstring's `-161.0`). -/
+theorem resolve_zero_negative_witnesses :
+    resolvePreDispatch (.str "0*n_jobs".toList) 2 = .amount 0 ∧
+    resolvePreDispatch (.str "0.4*n_jobs".toList) 2 = .amount 0 ∧
+    resolvePreDispatch (.str "0.4*n_jobs".toList) 3 = .amount 1 ∧
+    resolvePreDispatch (.str "-0.5".toList) 2 = .amount 0 ∧
+    resolvePreDispatch (.str "n_jobs//n_jobs - 1".toList) 4 = .amount 0 ∧
+    resolvePreDispatch (.str "-1".toList) 2 = .raise .ValueError ∧
+    resolvePreDispatch (.str "-n_jobs".toList) 2 = .raise .ValueError ∧
+    resolvePreDispatch (.str "n_jobs - 2*n_jobs".toList) 3 = .raise .ValueError ∧
+    resolvePreDispatch (.str "-1.5".toList) 2 = .raise .ValueError ∧
+    resolvePreDispatch (.str "2**63".toList) 2 = .raise .ValueError ∧
+    resolvePreDispatch (.str "2**63-1".toList) 2 = .amount (2 ^ 63 - 1) ∧
+    resolvePreDispatch (.str "1 + 2*3**(4) / (6 + -7)".toList) 2 = .raise .ValueError := by
+  decide
+
+/-- THE SUBSTITUTION IS TEXTUAL (witnesses). `n_jobs` is replaced in the text before parsing: `'2*n_jobs'`,
+`'n_jobs'`, `'1.5*n_jobs'`, `'3 * n_jobs // 2'` mean what they say, but `'n_jobs2'` is `22`, `'1n_jobs'` is `12`,
+`'n_jobs.5'` is `2.5`, `'n_jobsx'` is a `SyntaxError` (→ `ValueError`) and `'xn_jobs'`, `'n_jobs.real'`,
+`'(1).__class__'` are rejected; exceptions that are NOT re-labelled surface as they are: `'n_jobs/0'`
+(`ZeroDivisionError`), `'1e999'`, `'2.0**2000'` (`OverflowError`), `'None'`, `'1j'` (`TypeError` from `int()`). -/
+theorem resolve_text_witnesses :
+    resolvePreDispatch (.str "2*n_jobs".toList) 4 = .amount 8 ∧
+    resolvePreDispatch (.str "n_jobs".toList) 16 = .amount 16 ∧
+    resolvePreDispatch (.str "1.5*n_jobs".toList) 3 = .amount 4 ∧
+    resolvePreDispatch (.str "3 * n_jobs // 2".toList) 3 = .amount 4 ∧
+    resolvePreDispatch (.str "n_jobs2".toList) 2 = .amount 22 ∧
+    resolvePreDispatch (.str "1n_jobs".toList) 2 = .amount 12 ∧
+    resolvePreDispatch (.str "n_jobs.5".toList) 2 = .amount 2 ∧
+    resolvePreDispatch (.str "n_jobsx".toList) 2 = .raise .ValueError ∧
+    resolvePreDispatch (.str "xn_jobs".toList) 2 = .raise .ValueError ∧
+    resolvePreDispatch (.str "n_jobs.real".toList) 2 = .raise .ValueError ∧
+    resolvePreDispatch (.str "(1).__class__".toList) 2 = .raise .ValueError ∧
+    resolvePreDispatch (.str "n_jobs/0".toList) 2 = .raise .ZeroDivisionError ∧
+    resolvePreDispatch (.str "1e999".toList) 2 = .raise .OverflowError ∧
+    resolvePreDispatch (.str "2.0**2000".toList) 2 = .raise .OverflowError ∧
+    resolvePreDispatch (.str "None".toList) 2 = .raise .TypeError ∧
+    resolvePreDispatch (.str "1j".toList) 2 = .raise .TypeError ∧
+    resolvePreDispatch (.str "all".toList) 2 = .all ∧
+    evalExpr (.other .call) = .raise .ValueError ∧ evalExpr (.other .attribute) = .raise .ValueError ∧
+    evalExpr (.binOp .matMult (.const (.int 1)) (.const (.int 2))) = .raise .ValueError ∧
+    evalExpr (.unaryOp .invert (.const (.int 1))) = .raise .ValueError := by
+  decide +kernel
+
+/-! the hypotheses are satisfiable -/
+
+/-- `Parallel(n_jobs=3, pre_dispatch='2*n_jobs')` with scripted batch sizes 2, 1: the configuration with `pd = 6`. -/
+example : UserCfg ⟨3, true, [2, 1], 2, 6, 0, -1, false, true⟩ (.str "2*n_jobs".toList) 3 := by
+  refine ⟨rfl, ?_⟩
+  have : resolvePreDispatch (.str "2*n_jobs".toList) ((3 : Nat) : Int) = .amount 6 := by decide
+  rw [this]
+  exact ⟨by decide, rfl⟩
+
+/-- An expression of the integer fragment whose powers are within the bound: `3 * 4 // 2 - 2 ** 5 % 7`. -/
+example : intDenote (.binOp .sub (.binOp .floorDiv (.binOp .mult (.const (.int 3)) (.const (.int 4))) (.const (.int 2)))
+      (.binOp .mod (.binOp .pow (.const (.int 2)) (.const (.int 5))) (.const (.int 7)))) = some 2 ∧
+    powWithinBound (.binOp .sub (.binOp .floorDiv (.binOp .mult (.const (.int 3)) (.const (.int 4))) (.const (.int 2)))
+      (.binOp .mod (.binOp .pow (.const (.int 2)) (.const (.int 5))) (.const (.int 7)))) = true := by decide
+
+end EvalExprSection
 
 end C09
